@@ -102,4 +102,83 @@ Proof.
     rewrite lookup_insert_ne by done. unfold spawned. cbn. rewrite (left_id_L ∅ (∪)). by rewrite lookup_delete_ne. }
   eapply (join_generic D F teq Hteq HF HFa HFn HFc c f t r nf k (Rendezvous t r)); eauto.
 Qed.
+
+(* ------------------------------------------------------------------ every peak closes *)
+Lemma conflict_join c a b ca cb N : JN c -> np_conflict a b ->
+  step NP D F c a = SStep ca -> step NP D F c b = SStep cb ->
+  ((forall m c', runN m cb c' -> (m <= N)%nat) \/ (forall m c', runN m ca c' -> (m <= N)%nat)) ->
+  exists k d, runN k cb d /\ runN k ca d.
+Proof.
+  intros HJ Hcf Ha Hb Hbound. destruct Hcf as [f t|f t r|f t s|f t t'].
+  - eapply join_ctl_run; eauto.
+  - eapply join_ctl_rdv_send; eauto.
+  - eapply join_ctl_rdv_recv; eauto.
+  - destruct (join_ctl_ctl D F teq Hteq HF HFa HFn HFc c f t t' ca cb HJ Ha Hb) as (d & H1 & H2).
+    exists 1%nat, d. split; (eapply bs_S; [apply stp_Some; eauto|apply bs_O]).
+Qed.
+
+Theorem np_balanced c a b c1 c2 N : JN c -> stpN c a = Some c1 -> stpN c b = Some c2 ->
+  (forall m c', runN m c1 c' -> (m <= N)%nat) ->
+  exists k d1 d2, runN k c1 d1 /\ runN k c2 d2 /\ cfg_equiv d1 d2.
+Proof.
+  intros HJ Ha Hb Hbound. apply stp_Some in Ha, Hb. pose proof HJ as (HI & Hbe & Hcf). pose proof HI as [[Δ Hc] Ht _ Hns _ _ _].
+  destruct (decide (a = b)) as [->|Hab].
+  { rewrite Ha in Hb. injection Hb as <-. exists 0%nat, c1, c1. split; [apply bs_O|]. split; [apply bs_O|done]. }
+  destruct (np_peak_cases D F teq Hteq HF Δ c Hc Ht Hbe a b c1 c2 Hab Ha Hb) as [Hi|[Hcf'|Hcf']].
+  - destruct (diamond NP D F c a b c1 c2 Hns Hi Ha Hb) as (d1 & d2 & H1 & H2 & He).
+    exists 1%nat, d1, d2. split; [eapply bs_S; [by apply stp_Some|apply bs_O]|]. split; [eapply bs_S; [by apply stp_Some|apply bs_O]|done].
+  - destruct (conflict_join c a b c1 c2 N HJ Hcf' Ha Hb (or_intror Hbound)) as (k & d & H1 & H2). exists k, d, d. done.
+  - destruct (conflict_join c b a c2 c1 N HJ Hcf' Hb Ha (or_introl Hbound)) as (k & d & H1 & H2). exists k, d, d. done.
+Qed.
+
+(* ------------------------------------------------------------------ uniform termination and the runs of the interpreter *)
+Lemma JN_stp' c a c' : JN c -> stpN c a = Some c' -> JN c'.
+Proof. apply (JN_stp D F teq Hteq HF HFa HFn HFc). Qed.
+
+Lemma nsteps_bsteps n c t : nsteps stpN n c t -> runN n c t.
+Proof. induction 1; [apply bs_O|eapply bs_S; eauto]. Qed.
+
+Theorem np_uniform n c t : JN c -> runN n c t -> bterminal stpN t ->
+  forall m c', runN m c c' -> (m <= n)%nat /\ exists t', runN (n - m) c' t' /\ cfg_equiv t' t.
+Proof.
+  intros HJ. apply (uniform_balanced_bounded stpN cfg_equiv JN (stp_eqv NP D F) JN_stp'); [|exact HJ].
+  intros c0 a b c1 c2 N HJ0 Ha Hb Hbd. eapply np_balanced; eauto.
+Qed.
+
+Lemma np_no_error c ch who e : JN c -> step NP D F c ch <> SError who e.
+Proof.
+  intros (HI & _). destruct HI as [[Δ Hc] Ht _ _ _ _ _]. eapply (no_error_np D F teq Hteq HF); eauto. by apply topo_closed_unused_np.
+Qed.
+
+Lemma exec_run_complete_np pick fuel : forall n c t,
+  JN c -> runN n c t -> quiescent NP D F t -> (n < fuel)%nat ->
+  exists t', exec_run fuel pick NP D F c = RQuiescent t' /\ cfg_equiv t' t.
+Proof.
+  induction fuel as [|f IH]; intros n c t HJ Hn Hq Hf; [lia|].
+  assert (Ht : bterminal stpN t) by (intros a; unfold stp; by rewrite Hq). cbn [exec_run].
+  destruct (enabled NP D F c) as [|e0 es] eqn:E.
+  - exists c. split; [done|]. apply enabled_nil_quiescent in E.
+    inversion Hn as [|n0 c0 a c1 t0 Hs _]; subst; [done|]. apply stp_Some in Hs. by rewrite E in Hs.
+  - set (ch := nth _ _ _).
+    assert (Hin : In ch (enabled NP D F c)).
+    { rewrite E. apply nth_In. cbn [length]. apply Nat.mod_upper_bound. lia. }
+    apply enabled_spec in Hin. destruct (step NP D F c ch) as [|c'|who e] eqn:Es; [done| |].
+    + assert (Hs : stpN c ch = Some c') by (by apply stp_Some).
+      assert (H1 : runN 1 c c') by (eapply bs_S; [exact Hs|apply bs_O]).
+      destruct (np_uniform n c t HJ Hn Ht 1%nat c' H1) as [Hle (t1 & Ht1 & He1)].
+      assert (Hq1 : quiescent NP D F t1) by (eapply quiescent_equiv; [|exact Hq]; by symmetry).
+      destruct (IH (n - 1)%nat c' t1 (JN_stp' _ _ _ HJ Hs) Ht1 Hq1 ltac:(lia)) as (t' & Hr & He).
+      exists t'. split; [done|]. by etrans.
+    + by destruct (np_no_error c ch who e HJ).
+Qed.
+
+(* determinism of the non-polarized mode, for configurations *)
+Theorem determinism_np_cfree_cfg c pick1 pick2 f1 f2 t1 :
+  JN c -> exec_run f1 pick1 NP D F c = RQuiescent t1 -> (f1 <= f2)%nat ->
+  exists t2, exec_run f2 pick2 NP D F c = RQuiescent t2 /\ cfg_equiv t2 t1 /\ labels t2 ≡ₚ labels t1.
+Proof.
+  intros HJ H1 Hf. apply exec_run_sound in H1 as (n & Hn & Hr & Hq). apply nsteps_bsteps in Hr.
+  destruct (exec_run_complete_np pick2 f2 n c t1 HJ Hr Hq ltac:(lia)) as (t2 & H2 & He).
+  exists t2. split; [done|]. split; [done|]. by apply cfg_equiv_labels.
+Qed.
 End NPDet.
